@@ -193,10 +193,10 @@ decreasing_by
 
 /-! ## The regex fragment the key matchers emit
 
-`re.match("^" + key2 + "$", key1)` for `key2` a sequence of quantified one-character atoms, optionally inside a
+`re.match("^" + key2 + r"\Z", key1)` for `key2` a sequence of quantified one-character atoms, optionally inside a
 capturing group: literal, `.`, `[^/]`, `[^\/]` with quantifier none / `*` / `+` / `+?`.  Backtracking order is
 CPython's (greedy: longest first, lazy: shortest first), so the captures of the *first* successful match are returned.
-`.` does not match a line feed and `$` also matches before a final line feed (no flags are passed by the code). -/
+`.` does not match a line feed (no flags are passed by the code); the pattern is anchored by `^` … `\Z`. -/
 
 inductive Atom | chr (c : Char) | dot | notSlash
   deriving DecidableEq, Repr
@@ -215,8 +215,9 @@ structure Node where
   cap : Bool
   deriving DecidableEq, Repr
 
-/-- `$` -/
-def atEnd (s : Str) : Bool := s.isEmpty || s == ['\n']
+/-- `\Z`: the end of the key (after `fix: … anchor the pattern with \Z`; `$` would also match before a final
+    line feed) -/
+def atEnd (s : Str) : Bool := s.isEmpty
 
 /-- greedy repetition of a one-character test, then the continuation `k`; returns (consumed text, `k`'s answer) -/
 def repG {α : Type} (ok : Char → Bool) (k : Str → Option α) : Bool → Str → Option (Str × α)
@@ -234,7 +235,7 @@ def repL {α : Type} (ok : Char → Bool) (k : Str → Option α) : Bool → Str
     | some x => some x
     | none => if ok c then (repL ok k true s).map (fun wr => (c :: wr.1, wr.2)) else none
 
-/-- first successful match of the node sequence followed by `$`; answer = the captured groups in order -/
+/-- first successful match of the node sequence followed by `\Z`; answer = the captured groups in order -/
 def matchNodes : List Node → Str → Option (List Str)
   | [], s => if atEnd s then some [] else none
   | n :: r, s =>
@@ -342,7 +343,7 @@ def parseItem (s : Str) : PRes Node :=
          | .outside => .outside
          | .ok q r2 => .ok { atom := a, q := q, cap := false } r2)
 
-/-- the body of a regex (between `^` and `$`) as a node list; `fuel` > the length suffices -/
+/-- the body of a regex (between `^` and `\Z`) as a node list; `fuel` > the length suffices -/
 def parseRe : Nat → Str → Out (List Node)
   | 0, _ => .outside
   | _ + 1, [] => .ok []
@@ -352,16 +353,16 @@ def parseRe : Nat → Str → Out (List Node)
     | .outside => .outside
     | .ok n rest => (parseRe fuel rest).map (fun ns => n :: ns)
 
-/-- `re.match("^" + body + "$", key)`: `ok none` = no match, `ok (some groups)` -/
+/-- `re.match("^" + body + r"\Z", key)`: `ok none` = no match, `ok (some groups)` -/
 def reMatchBody (body key : Str) : Out (Option (List Str)) :=
   (parseRe (body.length + 1) body).map (fun ns => matchNodes ns key)
 
-/-- `re.match(re, key)` for a full regex string: must be `^…$` -/
+/-- `re.match(re, key)` for a full regex string: must be `^…\Z` -/
 def reMatchFull (re key : Str) : Out (Option (List Str)) :=
   match re with
   | '^' :: r =>
     (match r.reverse with
-     | '$' :: br => reMatchBody br.reverse key
+     | 'Z' :: '\\' :: br => reMatchBody br.reverse key
      | _ => .outside)
   | _ => .outside
 
